@@ -53,6 +53,19 @@ def _instances():
     for vt in ("PRV", "PSV", "PBV", "FCV", "TCV"):
         wn.add_valve(vt, "J", "K", diameter=0.3, valve_type=vt, minor_loss=0.0, initial_setting=1.0)
     wn.add_valve("GPV", "J", "K", diameter=0.3, valve_type="GPV", initial_setting="h")
+    # optional attributes carry a number (a key whose value is None in the instance stays None in the case; a number becomes an arbitrary value)
+    j = wn.get_node("J")
+    j.minimum_pressure, j.required_pressure, j.pressure_exponent, j.emitter_coefficient, j.initial_quality = 3.0, 25.0, 0.6, 0.01, 0.5
+    t = wn.get_node("T")
+    t.initial_quality, t.bulk_coeff, t.mixing_fraction, t.min_vol = 0.4, -0.1, 0.3, 12.0
+    t.mixing_model = "2COMP"
+    wn.get_node("R").initial_quality = 0.2
+    p_ = wn.get_link("P")
+    p_.bulk_coeff, p_.wall_coeff, p_.initial_quality = -0.2, -0.05, 0.1
+    for ln in ("HP", "PP"):
+        wn.get_link(ln).initial_quality = 0.1
+        wn.get_link(ln).energy_price = 0.2
+    wn.get_link("HP").initial_setting = 1.0
     return wn
 
 
@@ -178,6 +191,9 @@ def _element_case(elname, group):
                 if k not in fed:
                     # restored through an attribute assignment after construction (property setters are interpreted)
                     got = obj.fields.get("_" + k, obj.fields.get(k, "<never assigned>"))
+                import enum as _enum
+                if isinstance(got, _enum.Enum) and isinstance(want, str):
+                    got = got.name           # (to_dict writes an enum member by its name)
                 if isinstance(want, SV):
                     ok = isinstance(got, SV) and got.t.eq(want.t)
                     if not ok and isinstance(got, SV):
